@@ -56,6 +56,31 @@ type SeedZeroP struct{ N int }
 
 func (z *SeedZeroP) IsZero() bool { return z.N == 0 }
 
+// SeedTags is a named slice of primitives with its own Fold (value receiver).
+type SeedTags []string
+
+func (t SeedTags) Fold(v structform.ExtVisitor) error {
+	s := ""
+	for i, x := range t {
+		if i > 0 {
+			s += ","
+		}
+		s += x
+	}
+	return v.OnString("tags:" + s)
+}
+
+// SeedCounts is a named map of primitives with its own Fold (pointer receiver).
+type SeedCounts map[string]int
+
+func (c *SeedCounts) Fold(v structform.ExtVisitor) error {
+	n := 0
+	for _, x := range *c {
+		n += x
+	}
+	return v.OnInt(n)
+}
+
 // SeedFieldTypes are the seed types used as field types of generated structs.
 func SeedFieldTypes() []FieldType {
 	return []FieldType{
@@ -63,6 +88,8 @@ func SeedFieldTypes() []FieldType {
 		{"SeedFolderV", reflect.TypeOf(SeedFolderV{})}, {"SeedFolderP", reflect.TypeOf(SeedFolderP{})}, {"*SeedFolderV", reflect.TypeOf(&SeedFolderV{})},
 		{"SeedMyInt", reflect.TypeOf(SeedMyInt(0))}, {"SeedMyStr", reflect.TypeOf(SeedMyStr(""))}, {"SeedMyMap", reflect.TypeOf(SeedMyMap(nil))},
 		{"SeedMySlice", reflect.TypeOf(SeedMySlice(nil))},
+		{"SeedTags", reflect.TypeOf(SeedTags(nil))}, {"SeedCounts", reflect.TypeOf(SeedCounts(nil))}, {"[]SeedTags", reflect.TypeOf([]SeedTags(nil))},
+		{"map[string]SeedCounts", reflect.TypeOf(map[string]SeedCounts(nil))},
 	}
 }
 
@@ -88,6 +115,42 @@ func hasFolder(t reflect.Type, seen map[reflect.Type]bool) bool {
 	case reflect.Struct:
 		for i := 0; i < t.NumField(); i++ {
 			if hasFolder(t.Field(i).Type, seen) {
+				return true
+			}
+		}
+	}
+	return false
+}
+
+// ValueHasCustomFolder tells whether folding v reaches a value whose type has a Fold method.
+func ValueHasCustomFolder(v reflect.Value) bool {
+	if !v.IsValid() {
+		return false
+	}
+	if HasCustomFolder(v.Type()) {
+		return true
+	}
+	switch v.Kind() {
+	case reflect.Interface, reflect.Ptr:
+		if v.IsNil() {
+			return false
+		}
+		return ValueHasCustomFolder(v.Elem())
+	case reflect.Slice, reflect.Array:
+		for i := 0; i < v.Len(); i++ {
+			if ValueHasCustomFolder(v.Index(i)) {
+				return true
+			}
+		}
+	case reflect.Map:
+		for _, k := range v.MapKeys() {
+			if ValueHasCustomFolder(v.MapIndex(k)) {
+				return true
+			}
+		}
+	case reflect.Struct:
+		for i := 0; i < v.NumField(); i++ {
+			if ValueHasCustomFolder(v.Field(i)) {
 				return true
 			}
 		}
